@@ -33,6 +33,23 @@ _TOKEN_NOTE = ("Trusted: Lean kernel; Model/Envelope.lean and Model/Token.lean r
                "(the harness computes signature validity, the canonical key bytes and strings.ToLower with the libraries directly, never with go-ucan) — all tied differentially, not proved; "
                "factgen for the schema tables, struct field order, nonce minimum, tags and varsig headers.")
 
+def _container_filter(c18):
+    """C18 owns faults, truncations and the writer contract; C17 owns round trips and corruptions."""
+    c18_markers = ("container.truncated", "container.read-fault", "container.write:", "token.stream:")
+    def f(pid, d):
+        cl = d.get("class", "")
+        is18 = cl.startswith(c18_markers)
+        # a writer/reader contract failure without a fault is a round-trip failure too: report it to both
+        if cl.startswith("container.write:"):
+            return True
+        return is18 if c18 else not is18
+    return f
+
+
+_CTN_NOTE = ("Trusted: Lean kernel; Model/Container.lean renders car.go/reader.go/writer.go by hand (checked differentially); token.FromSealed is the parameter `unsealFn` (its own guarantees are C06/C08), "
+             "go-cid's CID parsing/hashing, dagcbor, encoding/base64, bufio and io.ReadFull are dependencies: the harness parses each container with its own framing code and gives the model, per section, "
+             "go-cid's integrity verdict and FromSealed's verdict as oracles. How bytes are chunked into Read calls is not represented in the model; independence from it is measured by the stream.")
+
 _CHAIN_NOTE = ("Trusted: Lean kernel; Model/Chain.lean renders invocation.go/proof.go/delegation.go by hand and is tied to the code by the differential `chain` stream "
                "(real signed tokens, verdicts compared in the direction this property needs), not by proof; the system clock moving less than an hour during a call; "
                "Ed25519 signatures and go-ipld-prime are used to build the tokens but are not part of this property.")
@@ -157,5 +174,21 @@ PROPS = {
         technique="Lean 4 proofs of envelope and schema strictness over REGENERATED schema tables (decide-checked facts: tags differ, Go struct field order = schema order, nonce minimum ≥ 12), of tag-directed dispatch (no type confusion) and of the well-formedness of every decoded delegation; tied by the full product field × mutation × decoder, each correctly re-signed, and by every Go integer type at its boundaries through literal.Any/args.Add/meta.Add",
         level_text="C10_tags_differ, C10_struct_order, C10_nonce_min, C10_schema_kinds_known, C10_schema_strict, C10_no_type_confusion_dlg/inv, C10_generic_dispatch, C10_decoded_dlg_wf (nonce ≥ 12, command in the grammar, time bounds within ±(2^53−1)). Go: every payload field of both token types × {dropped, null, 19 retypings incl. boundary integers, field-specific malformed values} + unknown key + envelope shape cases, re-signed, through 3 decoders (× DAG-JSON sample); 90 (type, value) integer cases exact-or-rejected.",
         level_note=_TOKEN_NOTE,
+    ),
+    "C17": dict(
+        props_module="Ucan.Props.C17",
+        streams=["container"],
+        filter=_container_filter(False),
+        technique="Lean 4 proofs about a model of the CAR framing and the container readers: written sections read back exactly (varint round trip by induction), hence the CAR and CBOR containers return exactly the entries put in; the result is permutation-invariant in the write order; a successful read implies every entry unsealed and every block hashes to its stored CID; one bad entry fails the whole read; tied by all writer × reader combinations and single-entry corruptions",
+        level_text="C17_car_roundtrip, C17_car_exact, C17_cbor_roundtrip (via C08_decode_encode), C17_order_independent, C17_all_or_nothing, C17_one_bad_entry_fails, C17_car_integrity. Go: sets of 0–4 sealed tokens × 4 formats × {bytes, io.Writer} writers × {bytes, 1-byte, data-with-EOF, chunked} readers; bit flips across the container (header, length prefixes, stored CIDs, data), bad signatures, duplicated/reordered/mislabelled blocks, blocks under a foreign-codec CID, zero/huge sections, trailing bytes — error/ok and the set of CIDs compared.",
+        level_note=_CTN_NOTE,
+    ),
+    "C18": dict(
+        props_module="Ucan.Props.C18",
+        streams=["container"],
+        filter=_container_filter(True),
+        technique="Lean 4 proofs over byte sources that end in eof or fault: a faulting source never yields a result (induction over the block loop); a truncated CAR is an error or, exactly on a block boundary, the blocks before the cut (lemma: a proper prefix of a varint never reads; a proper prefix of a section is an unexpected EOF); tied by truncation and read faults at every offset, write faults at every write call incl. the final base64 flush, and CID/bytes equality of the streaming and buffered token APIs under several chunkings",
+        level_text="C18_fault_car, C18_fault_cbor, ldRead_prefix, C18_truncation_car (for every prefix of every written CAR). Streaming = buffered holds by construction in the model (one function of the byte source). Go: every (every 3rd, quick) truncation offset and read-fault offset of written containers in 4 formats through 3 reader variants; every write call failing for all 8 writers; FromSealedReader/ToSealedWriter of single tokens cut/failing at every offset/call, CIDs compared with the buffered calls. Partial: truncation of the CBOR container and of single tokens (always an error) is covered by the stream only — the prefix-freeness lemma for the lenient decoder on truncated input is not proved yet.",
+        level_note=_CTN_NOTE,
     ),
 }
